@@ -140,6 +140,8 @@ import assemble_model
 REGION_REC = region_model.RegionRecorder(max_records=50, stride=5, max_atoms=400)
 ASSEMBLE = []
 SPAN = []
+BEST = []
+import bestbasis_model
 import span_model
 
 
@@ -170,6 +172,8 @@ def recorded_runs(ctx, nrun, directed=False):
                 clusters = shared.get_clusters(a, seed=seed, **params)
             if len(ASSEMBLE) < 80:
                 ASSEMBLE.extend(prec.assemble[:2])
+            if len(BEST) < 24:
+                BEST.extend(prec.best[:2])
             if len(SPAN) < 30:
                 SPAN.extend(prec.span[:1])
             proto_records.extend(prec.records)
@@ -314,6 +318,7 @@ def run(ctx):
     region_model.check(ctx, broken, REGION_REC.records)
     assemble_model.check(ctx, broken, ASSEMBLE)
     span_model.check(ctx, broken, SPAN)
+    bestbasis_model.check(ctx, broken, BEST)
     seen = set()
     for b in bad:
         key = "%s:%s" % (b["case"]["kind"], b["complaints"][0][:40])
